@@ -91,14 +91,19 @@ def compute(tier, seed):
             bad = sorted(set(v["t"] for v in rep["violations"]))
             rp = os.path.join(work, "replay.json")
             json.dump([byt[t] for t in bad], open(rp, "w"))
-            out2 = os.path.join(work, "rerun")
-            rc, txt, _ = run([wpbin, "-out", out2, "-replay", rp, "-seed", str(seed)], timeout=3000, check=False)
-            if rc != 0:
-                raise Infra("wp replay failed: " + txt[-2000:])
-            rep2, _ = run_monitor(work, os.path.join(out2, "traces.ndjson"))
+            # outcomes that depend on which ready select case the runtime picks need not repeat at once: up to four
+            # re-executions of the violating programs; a violation seen again in any of them is reproduced
             again = {}
-            for v in rep2["violations"]:
-                again.setdefault(bad[v["t"] - 1], set()).add(v["p"])
+            for attempt in range(4):
+                out2 = os.path.join(work, "rerun%d" % attempt)
+                rc, txt, _ = run([wpbin, "-out", out2, "-replay", rp, "-seed", str(seed)], timeout=3000, check=False)
+                if rc != 0:
+                    raise Infra("wp replay failed: " + txt[-2000:])
+                rep2, _ = run_monitor(work, os.path.join(out2, "traces.ndjson"))
+                for v in rep2["violations"]:
+                    again.setdefault(bad[v["t"] - 1], set()).add(v["p"])
+                if all(v["p"] in again.get(v["t"], set()) for v in rep["violations"]):
+                    break
             events = {}
             for line in open(os.path.join(out, "traces.ndjson")):
                 e = json.loads(line)
